@@ -85,12 +85,6 @@ def neg_test_of(f, cond):
 NO_MONODIM = 4294967295
 
 
-def is_monodim_test(f, cond):
-    rc = core.rel_canon(f, cond, None)
-    from . import vg
-    return rc is not None and rc[1] == "!=0" and rc[0] == core.eq_norm(vg.P_("monodim - %d" % NO_MONODIM))
-
-
 def run_sign(P, C):
     C.rule("SG-2", "every store into the vector returned by nnls_normal_block3 (and into it through walk_descents) is literal 0, a load of the "
            "unconstrained solution x_F guarded by `no component of x_F is negative` (counter incremented exactly under x_F[i] < 0 over the same "
@@ -232,47 +226,92 @@ def run_sign(P, C):
         raise core.AnalysisBroken("evaluate_descent: no store into the trial vector found")
 
 
+def is_monodim_test(f, cond):
+    """cond is `monodim != NO_MONODIM` with monodim identified as the parameter compared against the all-ones constant"""
+    c, neg = core.cond_polarity(f, cond)
+    n = f.nodes[c]
+    if n["k"] != "BinaryOperator" or n["op"] not in ("!=", "=="):
+        return False
+    l, r = f.strip(n["ch"][0]), f.strip(n["ch"][1])
+    if f.nodes[r].get("cv") is None:
+        l, r = r, l
+    if f.nodes[r].get("cv") not in (NO_MONODIM, -1) or f.k(l) != "DeclRefExpr" or f.nodes[l]["decl"]["kind"] != "ParmVar":
+        return False
+    return (n["op"] == "!=") != neg
+
+
 def run_mono(P, C):
+    from . import gw
     C.rule("SG-1", "with a monotonic dimension glamfit_complex solves with nnls_normal_block3, and that result is the only source of the output coefficients", floor=2)
     C.rule("SG-3", "after the copy-out the monotonic branch accumulates out[a + j*s + k] += out[a + (j-1)*s + k] for j = 1..naxes[monodim]-1 with "
            "s the product of the later axes and a = i*s*naxes[monodim] (row-major, the evaluator's layout); nothing else writes the output afterwards", floor=3)
     C.rule("SG-4", "the lower-triangular change of basis is applied to the basis of the monotonic dimension and to the penalty of the same dimension", floor=3)
     G = P.one("glamfit_complex", file_endswith="glam.c")
-    pidx = {p["name"]: k for k, p in enumerate(G.params)}
-    # SG-1
-    sel = [i for i in G.walk() if G.k(i) == "IfStmt" and any(cal and cal["name"] == "nnls_normal_block3" for _x, cal in G.calls(G.nodes[i]["then"]))]
+    # parameters by position: 6 naxes, 7 out_coefficients, 10 monodim, 11 verbose, 12 c (the C interface of the fitter)
+    # SG-1: variables by declaration
+    nn = gw.calls(G, "nnls_normal_block3")
+    ad = gw.calls(G, "cholmod_l_add")
+    sd = gw.calls(G, "cholmod_l_sparse_to_dense")
+    cs = gw.calls(G, "cholesky_solve")
     ok = False
-    det = "no branch calling nnls_normal_block3"
-    if sel:
-        c = G.render(G.nodes[sel[0]]["cond"]).replace(" ", "")
-        then = G.render(G.nodes[sel[0]]["then"]).replace(" ", "")
-        els = G.render(G.nodes[sel[0]]["else"]).replace(" ", "") if G.nodes[sel[0]]["else"] >= 0 else ""
-        ok = is_monodim_test(G, G.nodes[sel[0]]["cond"]) and "(coefficients=nnls_normal_block3(fitmat,Rdens,verbose,c))" in then and "nnls_normal_block3" not in els
-        det = "if %s: %s" % (c, then[:80])
-    C.ob("SG-1", "glamfit_complex", "solver-selection", ok, G.loc(sel[0]) if sel else G.where(), det)
-    outs = [i for i in G.walk() if ts.assign_parts(G, i) and G.render(ts.assign_parts(G, i)[0]).startswith("out_coefficients[")]
+    det = "no call of nnls_normal_block3"
+    coef = None
+    if len(nn) == 1 and len(ad) == 1 and len(sd) == 1:
+        i, t, txt, order = nn[0]
+        sel = [a_ for a_ in G.ancestors(t) if G.k(a_) == "IfStmt"]
+        inthen = bool(sel) and t in set(G.walk(G.nodes[sel[0]]["then"]))
+        ok = txt == "(v0=nnls_normal_block3(v1,v2,$11,$12))" and order[1] == ad[0][3][0] and order[2] == sd[0][3][0] and len(sel) == 1 and inthen and \
+            is_monodim_test(G, G.nodes[sel[0]]["cond"]) and (not cs or cs[0][3][0] == order[0])
+        coef = order[0]
+        det = "if (monodim requested) %s with the system matrix and right-hand side of the unconstrained branch: %s" % (txt, ok)
+    C.ob("SG-1", "glamfit_complex", "solver-selection", ok, G.loc(nn[0][0]) if nn else G.where(), det)
+    out_id = G.params[7]["id"]
+
+    def out_store(i):
+        ap = ts.assign_parts(G, i)
+        if not ap:
+            return False
+        l = G.strip(ap[0])
+        return G.k(l) == "ArraySubscriptExpr" and var_id(G, G.nodes[l]["ch"][0]) == out_id
+    outs = [i for i in G.walk() if out_store(i)]
     plain = [i for i in outs if G.nodes[i]["op"] == "="]
     acc = [i for i in outs if G.nodes[i]["op"] == "+="]
-    okc = len(plain) == 1 and dense_load(G, ts.assign_parts(G, plain[0])[1]) is not None and \
-        dense_load(G, ts.assign_parts(G, plain[0])[1])[0] == "coefficients" and \
-        G.render(dense_load(G, ts.assign_parts(G, plain[0])[1])[1]) == G.render(G.nodes[G.strip(ts.assign_parts(G, plain[0])[0])]["ch"][1])
+    okc = False
+    if len(plain) == 1:
+        txt, order = G.alpha(plain[0])
+        okc = txt.replace(" ", "") == "($7[v0]=(double*)v1->x[v0])" and order[1] == coef
     C.ob("SG-1", "glamfit_complex", "copy-out", okc, G.loc(plain[0]) if plain else G.where(),
-         "the output is filled from the solver's result and from nothing else: %s" % [G.render(x) for x in plain])
+         "the output is filled from the solver's result and from nothing else (%d plain store(s))" % len(plain))
     # SG-3
     ok3 = False
     det3 = "no accumulation statement"
+    s1 = s2 = None
     if len(acc) == 1:
         a = acc[0]
-        txt = G.render(a).replace(" ", "")
-        want = "(out_coefficients[((((i*stride2)*naxes[monodim])+(j*stride2))+k)]+=out_coefficients[((((i*stride2)*naxes[monodim])+((j-1)*stride2))+k)])"
+        txt, order = G.alpha(a)
+        txt = txt.replace(" ", "")
+        want = "($7[((((v0*v1)*$6[$10])+(v2*v1))+v3)]+=$7[((((v0*v1)*$6[$10])+((v2-1)*v1))+v3)])"
         loops = [x for x in G.ancestors(a) if G.k(x) == "ForStmt"]
-        hdr = ["%s;%s;%s" % tuple(G.render(G.nodes[L][x]).replace(" ", "") for x in ("init", "cond", "inc")) for L in loops]
-        want_hdr = ["(k=0);(k<stride2);(k++)", "(j=1);(j<naxes[monodim]);(j++)", "(i=0);(i<stride1);(i++)"]
+        hdr_ok = False
+        if txt == want and len(loops) == 3 and len(order) == 4:
+            iv, s2, jv, kv = order
+            lk, lj, li = loops
+            ck, cj, ci = gw._c_canonical_loop(G, lk), None, gw._c_canonical_loop(G, li)
+            # j starts at 1
+            ini = G.alpha(G.nodes[lj]["init"])
+            cnd = G.alpha(G.nodes[lj]["cond"])
+            inc = G.alpha(G.nodes[lj]["inc"])
+            j_ok = ini[0].replace(" ", "") == "(v0=1)" and ini[1] == [jv] and cnd[0].replace(" ", "") == "(v0<$6[$10])" and cnd[1] == [jv] and \
+                inc[0].replace(" ", "") in ("(v0++)", "(++v0)") and inc[1] == [jv]
+            k_ok = ck is not None and ck[0] == kv and G.alpha(G.nodes[G.strip(G.nodes[lk]["cond"])]["ch"][1])[1] == [s2]
+            i_ok = ci is not None and ci[0] == iv
+            s1 = G.alpha(G.nodes[G.strip(G.nodes[li]["cond"])]["ch"][1])[1][0] if i_ok and G.alpha(G.nodes[G.strip(G.nodes[li]["cond"])]["ch"][1])[1] else None
+            hdr_ok = j_ok and k_ok and i_ok and s1 is not None and s1 != s2
         guard = [x for x in G.ancestors(a) if G.k(x) == "IfStmt"]
         gc = bool(guard) and is_monodim_test(G, G.nodes[guard[0]]["cond"])
-        ok3 = txt == want and hdr == want_hdr and gc
-        det3 = "accumulate %s under loops %s, guard %s" % ("matches" if txt == want else txt, hdr, gc)
-        # after the copy-out in the function body
+        ok3 = txt == want and hdr_ok and gc
+        det3 = "accumulate %s; loops (i over the earlier axes, j from 1 over the monotonic axis, k over the later axes) %s, guard %s" % (
+            "matches" if txt == want else txt, hdr_ok, gc)
         body = G.ch(G.body)
         top_a = next(x for x in [a] + list(G.ancestors(a)) if x in body)
         top_p = next(x for x in [plain[0]] + list(G.ancestors(plain[0])) if x in body) if plain else None
@@ -280,43 +319,63 @@ def run_mono(P, C):
     C.ob("SG-3", "glamfit_complex", "prefix-sum", ok3, G.loc(acc[0]) if acc else G.where(), det3)
     strides = {}
     for i in G.walk():
-        if G.k(i) == "CompoundAssignOperator" and G.nodes[i]["op"] == "*=" and G.render(G.nodes[i]["ch"][0]) in ("stride1", "stride2"):
+        if G.k(i) == "CompoundAssignOperator" and G.nodes[i]["op"] == "*=":
+            txt, order = G.alpha(i)
+            if txt.replace(" ", "") != "(v0*=$6[v1])" or order[0] not in (s1, s2):
+                continue
             ifs = [x for x in G.ancestors(i) if G.k(x) == "IfStmt"]
-            cond = G.render(G.nodes[ifs[0]]["cond"]).replace(" ", "") if ifs else None
-            strides[G.render(G.nodes[i]["ch"][0])] = (G.render(i).replace(" ", ""), cond)
-    ok = strides.get("stride1") == ("(stride1*=naxes[i])", "(i<monodim)") and strides.get("stride2") == ("(stride2*=naxes[i])", "(i>monodim)")
-    C.ob("SG-3", "glamfit_complex", "strides", ok, G.where(), "stride1 = product of earlier axes, stride2 = product of later axes: %s" % strides)
-    last_writer = [i for i in outs]
+            ct, co = G.alpha(G.nodes[ifs[0]]["cond"]) if ifs else ("", [])
+            top = ifs[0] if ifs else -1
+            while top >= 0 and G.k(G.parent[top]) == "IfStmt" and G.nodes[G.parent[top]].get("else", -1) == top:
+                top = G.parent[top]                      # `else if` chain: the range test applies to the chain's head
+            strides[order[0]] = (ct.replace(" ", ""), co == [order[1]], gw.full_range(G, top, order[1], "$3") if ifs else False)
+    inits = [i for i in G.walk() if ts.assign_parts(G, i) and G.alpha(i)[0].replace(" ", "") == "(v0=(v1=1))" and set(G.alpha(i)[1]) == {s1, s2}]
+    ok = s1 is not None and strides.get(s1) == ("(v0<$10)", True, True) and strides.get(s2) == ("(v0>$10)", True, True) and len(inits) == 1
+    C.ob("SG-3", "glamfit_complex", "strides", ok, G.where(),
+         "both strides start at 1; the outer one is the product of the axes before the monotonic one, the inner one of those after it, over all dimensions: %s" % ok)
     C.ob("SG-3", "glamfit_complex", "no-later-writer", len(outs) == 2, G.where(), "out_coefficients is written by the copy-out and the prefix sum only (%d writers)" % len(outs))
     # SG-4
-    tr = [i for i, cal in G.calls() if cal and cal["name"] == "cholmod_tril"]
+    bb = gw.calls(G, "bsplinebasis")
+    tr = gw.calls(G, "cholmod_tril")
+    mm = [c for c in gw.calls(G, "cholmod_l_ssmult")]
     okb = False
-    if tr:
-        ifs = [x for x in G.ancestors(tr[0]) if G.k(x) == "IfStmt"]
-        cond = G.render(G.nodes[ifs[0]]["cond"]).replace(" ", "") if ifs else None
-        mult = [G.render(i).replace(" ", "") for i in G.walk(G.nodes[ifs[0]]["then"]) if ts.assign_parts(G, i) and "ssmult" in G.render(i)] if ifs else []
-        okb = cond in ("(monodim==i)", "(i==monodim)") and mult == ["(bases[i]=cholmod_l_ssmult(oldbasis,tril,0,1,0,c))"] and \
-            G.render(G.args(tr[0])[0]).replace(" ", "") == "nsplines[i]"
-    C.ob("SG-4", "glamfit_complex", "basis-tril", okb, G.loc(tr[0]) if tr else G.where(), "basis of the monotonic dimension is multiplied by the lower-triangular ones matrix of its size")
+    if len(tr) == 1 and len(mm) == 1 and len(bb) == 1:
+        ifs = [x for x in G.ancestors(tr[0][1]) if G.k(x) == "IfStmt"]
+        bases, iv = bb[0][3][0], bb[0][3][1]
+        ct, co = G.alpha(G.nodes[ifs[0]]["cond"]) if ifs else ("", [])
+        olds = [x for x in G.walk(G.nodes[ifs[0]]["then"]) if ts.assign_parts(G, x) and G.alpha(x)[0].replace(" ", "") == "(v0=v1[v2])"] if ifs else []
+        okb = bool(ifs) and ct.replace(" ", "") in ("($10==v0)", "(v0==$10)") and co == [iv] and \
+            mm[0][2] == "(v0[v1]=cholmod_l_ssmult(v2,v3,0,1,0,$12))" and mm[0][3][0] == bases and mm[0][3][1] == iv and mm[0][3][3] == tr[0][3][0] and \
+            tr[0][2] == "(v0=cholmod_tril(v1[v2],$12))" and tr[0][3][2] == iv and len(olds) == 1 and G.alpha(olds[0])[1] == [mm[0][3][2], bases, iv] and \
+            mm[0][1] in set(G.walk(G.nodes[ifs[0]]["then"]))
+        # the counts array given to tril is the one holding nknots-order-1
+        cnt = [x for x in G.walk() if ts.assign_parts(G, x) and G.alpha(x)[0].replace(" ", "") == "(v0[v1]=(($4[v1]-$8[v1])-1))"]
+        okb = okb and len(cnt) == 1 and G.alpha(cnt[0])[1][0] == tr[0][3][1]
+    C.ob("SG-4", "glamfit_complex", "basis-tril", okb, G.loc(tr[0][0]) if tr else G.where(), "basis of the monotonic dimension is multiplied by the lower-triangular ones matrix of its size")
     Pn = P.one("calc_penalty", file_endswith="glam.c")
-    tr = [i for i, cal in Pn.calls() if cal and cal["name"] == "cholmod_tril"]
+    tr = gw.calls(Pn, "cholmod_tril")
+    mm = [c for c in gw.calls(Pn, "cholmod_l_ssmult") if c[2] == "(v0=cholmod_l_ssmult(v1,v2,0,1,0,$7))"]
+    t2s = gw.calls(Pn, "cholmod_l_triplet_to_sparse")
     okp = False
-    if tr:
-        ifs = [x for x in Pn.ancestors(tr[0]) if Pn.k(x) == "IfStmt"]
-        cond = Pn.render(Pn.nodes[ifs[0]]["cond"]).replace(" ", "") if ifs else None
-        mult = [Pn.render(i).replace(" ", "") for i in Pn.walk(Pn.nodes[ifs[0]]["then"]) if ts.assign_parts(Pn, i) and "ssmult" in Pn.render(i)] if ifs else []
-        okp = cond == "mono" and mult == ["(finitediff=cholmod_l_ssmult(old,tril,0,1,0,c))"] and Pn.render(Pn.args(tr[0])[0]).replace(" ", "") == "nsplines[dim]"
-    C.ob("SG-4", "calc_penalty", "penalty-tril", okp, Pn.loc(tr[0]) if tr else Pn.where(), "the difference matrix of the monotonic dimension is multiplied by the same lower-triangular matrix")
+    if len(tr) == 1 and len(mm) == 1 and len(t2s) == 1:
+        ifs = [x for x in Pn.ancestors(tr[0][1]) if Pn.k(x) == "IfStmt"]
+        fd = t2s[0][3][0]
+        olds = [x for x in Pn.walk(Pn.nodes[ifs[0]]["then"]) if ts.assign_parts(Pn, x) and Pn.alpha(x)[0].replace(" ", "") == "(v0=v1)"] if ifs else []
+        okp = bool(ifs) and Pn.alpha(Pn.nodes[ifs[0]]["cond"])[0].replace(" ", "") == "$6" and tr[0][2] == "(v0=cholmod_tril($0[$3],$7))" and \
+            mm[0][3][0] == fd and mm[0][3][2] == tr[0][3][0] and len(olds) == 1 and Pn.alpha(olds[0])[1] == [mm[0][3][1], fd] and \
+            mm[0][1] in set(Pn.walk(Pn.nodes[ifs[0]]["then"]))
+    C.ob("SG-4", "calc_penalty", "penalty-tril", okp, Pn.loc(tr[0][0]) if tr else Pn.where(), "the difference matrix of the monotonic dimension is multiplied by the same lower-triangular matrix")
     A = P.one("add_penalty_term", file_endswith="glam.c")
-    fw = [A.render(i).replace(" ", "") for i, cal in A.calls() if cal and cal["name"] == "calc_penalty"]
-    okf = fw == ["calc_penalty(nsplines,knots,ndim,dim,order,porder,mono,c)"]
+    fw = gw.calls(A, "calc_penalty")
+    okf = len(fw) == 1 and fw[0][2] == "(v0=calc_penalty($0,$1,$2,$3,$4,$5,$7,$9))"
     fits = [f for f in P.fns("fit") if f.cls == ts.CLS and f.unit == "driver"]
     passed = []
     for f in fits:
         for i, cal in f.calls():
             if cal and cal["name"] == "add_penalty_term":
                 a = f.args(i)
-                passed.append((f.render(a[3]).replace(" ", ""), f.render(a[7]).replace(" ", "")))
-    okm = bool(passed) and all(p == ("i", "(i==monodim)") for p in passed)
+                d3, d7 = f.alpha(a[3]), f.alpha(a[7])
+                passed.append((d3[0].replace(" ", ""), d7[0].replace(" ", ""), d3[1] == d7[1]))
+    okm = bool(passed) and all(p == ("v0", "(v0==$7)", True) for p in passed)
     C.ob("SG-4", "fit", "mono-flag", okf and okm, A.where(),
-         "fit passes (dimension i, i == monodim) to add_penalty_term, which forwards the flag unchanged to calc_penalty: %s %s" % (passed[:1], fw))
+         "fit passes (dimension i, i == monodim) to add_penalty_term, which forwards the flag unchanged to calc_penalty: %s %s" % (passed[:1], fw[0][2] if fw else None))
